@@ -30,7 +30,7 @@ rel=${DEMO_PATH#/tmp/seed/$P-$V/}; rel=${rel#$WT/}
 case "$rel" in /*) rel=$(echo "$rel" | sed "s|^.*/internal/|internal/|");; esac
 [ -d "$rel" ] && rel=$rel/$DEMO_FILE
 mkdir -p $(dirname $rel); cp $SRC/$DEMO_FILE $rel
-cmd=$(echo "$DEMO_CMD" | sed "s|/tmp/seed/$P-$V|$WT|g; s|^cd [^;&]*[;&]* *||")
+cmd=$(echo "$DEMO_CMD" | sed "s|/tmp/seed/$P-$V|$WT|g; s|^cd [^;&]*[;&]* *||; s|   *(.*$||; s|  *# .*$||")
 if [ "$RECHECK" = 1 ]; then
   rm -f $rel
   git apply $SRC/patch.diff || { res "PATCH DOES NOT APPLY to $BASE"; git -C /repo worktree remove --force $WT; exit 3; }
